@@ -7,5 +7,8 @@ package pbproto
 
 // C15: decoding never writes into a shared status
 //@ func (*pbproto).Unpack
-//@   property C15
+//@   property C15 C12
 //@   requires msgOwnStatus(as(m, type(*socket.message)))
+
+//@   requires[no-pending-refusal] @C12 !ghost.appendFailed
+//@   ensures[refusal-propagated] @C12 result == nil ==> !ghost.appendFailed
